@@ -341,3 +341,35 @@ func init() {
 	}
 	reg(`(*math/rand.Rand).Intn math/rand.Intn (*math/rand.Rand).Int63n math/rand.Int63n`, randIntn)
 }
+
+func init() {
+	// sync.Pool: Get returns the most recently Put object if there is one (what the per-P private slot
+	// does on one processor), otherwise New(); Put keeps the object. Objects are never dropped.
+	reg(`(*sync.Pool).Get`, func(in *Interp, th *Thread, fn *ssa.Function, a []Value) (Value, bool) {
+		p := a[0].(Ptr)
+		k := lockKey{p.Base, p.Idx}
+		if items := in.pools[k]; len(items) > 0 {
+			v := items[len(items)-1]
+			in.pools[k] = items[:len(items)-1]
+			return v, true
+		}
+		agg, ok := p.Base.V[p.Idx].(*Agg)
+		if !ok || len(agg.V) == 0 {
+			return Iface{}, true
+		}
+		newFn, ok := agg.V[len(agg.V)-1].(FuncV)
+		if !ok || newFn.IsNil() {
+			return Iface{}, true
+		}
+		return in.callSync(th, newFn, nil), true
+	})
+	reg(`(*sync.Pool).Put`, func(in *Interp, th *Thread, fn *ssa.Function, a []Value) (Value, bool) {
+		p := a[0].(Ptr)
+		k := lockKey{p.Base, p.Idx}
+		if iv, ok := a[1].(Iface); ok && iv.T == nil {
+			return nil, true
+		}
+		in.pools[k] = append(in.pools[k], a[1])
+		return nil, true
+	})
+}
